@@ -640,18 +640,6 @@ Proof. destruct p as [[]|]; cbv; intros H; try discriminate H; reflexivity. Qed.
 (* bytes of the relocation-table sub-image: empty without table *)
 Definition table_part (c : mbi_class) (x : mbi) (start : Z) : res (list N) :=
   if has_attr c AAppTable then match m_table x with Some es => table_export es start | None => Ok [] end else Ok [].
-Lemma reloc_segment_flat c x start : reloc_segment c x start = res_map (fun b => match b with [] => [] | _ => [b] end) (table_part c x start)
-                                      \/ True.
-Proof. now right. Qed.
-Lemma table_export_nonempty es start T : table_export es start = Ok T -> exists b t, T = b :: t.
-Proof.
-  intros H. destruct es as [|e r]; [discriminate|].
-  destruct (table_export_inv (e :: r) start T H) as (ent & wn & wp & wm & _ & _ & E3 & _ & ->); [discriminate|].
-  apply u32_length in E3. destruct wp as [|w0 wp']; [discriminate|].
-  destruct (table_images (e :: r) ++ ent ++ wm ++ le_enc 4 0 ++ wn) eqn:Q; cbn.
-  - rewrite <- !app_assoc in *. apply (f_equal (fun l => l ++ w0 :: wp')) in Q. rewrite <- !app_assoc in Q. rewrite Q. cbn. eauto.
-  - rewrite <- !app_assoc in *. apply (f_equal (fun l => l ++ w0 :: wp')) in Q. rewrite <- !app_assoc in Q. rewrite Q. cbn. eauto.
-Qed.
 Lemma reloc_segment_flat' c x start seg : reloc_segment c x start = Ok seg -> table_part c x start = Ok (flat seg).
 Proof.
   unfold reloc_segment, table_part. destruct (has_attr c AAppTable); [|intros H; now inversion H].
@@ -707,4 +695,284 @@ Proof.
     exists (wr OFF_CRC cw app'), (flat rs). split; [assumption|].
     split; [right; exists cw; split; [subst cw; apply le_enc_length|reflexivity]|]. split; [assumption|].
     rewrite flat_cons, flat_app. f_equal. f_equal. exact FT.
+Qed.
+
+(* TrustZone mixins of a class without certificate block *)
+Lemma mix_parse_tz_nocert c x tzsize sigsz dek data m st :
+  0 <= c_type c < 64 -> 0 <= m_subtype x < 4 -> 0 <= m_imgver x < 65536 ->
+  get_flags data = create_flags c x -> has_attr c ACertBlock = false -> has_tz c = true ->
+  (forall d, m_tz x = TzCustom d ->
+     tz_from_binary tzsize (match tzsize with O => data | _ => take_last tzsize data end) = Ok (TzCustom d)) ->
+  m = MixinTrustZone \/ m = MixinTrustZoneMandatory ->
+  mix_parse c tzsize sigsz dek data m st = Ok (upd x dek m st).
+Proof.
+  intros R1 R2 R3 DF NC HT DT Hm.
+  pose proof (flags_decode_lemma c x R1 R2 R3) as (F0 & F1 & F2 & _).
+  destruct Hm as [-> | ->]; unfold mix_parse, upd; rewrite DF, F2, HT, NC;
+    (destruct (m_tz x) as [|d|] eqn:E; cbn [tz_tag]; try reflexivity;
+     change (G_TZ_CUSTOM =? G_TZ_CUSTOM) with true; cbv iota; rewrite (DT d eq_refl); reflexivity).
+Qed.
+
+Lemma has_tz_mixin_attr c m : In m (c_mixins c) -> m = MixinTrustZone \/ m = MixinTrustZoneMandatory -> has_attr c ATrustZone = true.
+Proof. intros Hi [-> | ->]; eapply in_gives_has_attr; eauto. Qed.
+
+Theorem roundtrip_plain_crc k c x tzsize sigsz dek im :
+  wf_plain_crc c = true ->
+  (56 <= length (m_app x))%nat -> (length (m_app x) mod 4 = 0)%nat ->
+  0 <= m_subtype x < 4 -> 0 <= m_imgver x < 65536 ->
+  (forall es, m_table x = Some es -> has_attr c AAppTable = true /\ entries_ok es) ->
+  (forall d, m_tz x = TzCustom d -> length d = tzsize /\ (0 < tzsize)%nat) ->
+  export_mbi k c x = Ok im ->
+  parse_mbi k c tzsize sigsz dek im = Ok (parsed c x dek).
+Proof.
+  intros W L L4 R2 R3 HTb HZ E.
+  destruct (export_plain_shape k c x im W L E) as (app' & app'' & tb & U & HA & TB & ->).
+  pose proof W as W'. unfold wf_plain_crc in W'. repeat (apply andb_true_iff in W' as [W' ?]).
+  rename H into Wd, H0 into Wc, H1 into Wt2, H2 into Wt1, H3 into Wi, H4 into Wa.
+  assert (R1 : 0 <= c_type c < 64) by (apply Z.leb_le in Wt1; apply Z.ltb_lt in Wt2; lia).
+  assert (La : length app' = length (m_app x)) by (eapply update_ivt_length; eassumption).
+  destruct (ivt_words c x (m_app x) (total_len c x) 0 app' L U) as (IW1 & IW2 & IW3 & IW4).
+  assert (La'' : length app'' = length (m_app x)).
+  { destruct HA as [->|(w & Hw & ->)]; [assumption|]. rewrite off_crc_eq, wr_length; lia. }
+  assert (F'' : rd32 OFF_FLAGS app'' = create_flags c x /\ rd32 OFF_LOAD app'' = ivt_load c x).
+  { destruct HA as [->|(w & Hw & ->)]; [auto|]. rewrite off_crc_eq, off_flags_eq, off_load_eq in *.
+    rewrite !rd32_wr_other by lia. auto. }
+  destruct F'' as [FF FL].
+  assert (CL : clean_ivt app'' = clean_ivt (m_app x)).
+  { destruct HA as [->|(w & Hw & ->)]; [|rewrite clean_wr_crc by lia]; eapply clean_update; eassumption. }
+  assert (NC : has_attr c ACertBlock = false) by (rewrite has_attr_gives; now apply no_cert_plain).
+  assert (HTZ : has_tz c = has_attr c ATrustZone).
+  { unfold has_tz, has_manifest, has. destruct (no_manifest_plain _ W') as [-> ->]. now rewrite orb_false_r. }
+  set (data := app'' ++ tb ++ tz_part c x).
+  assert (DF : get_flags data = create_flags c x) by (unfold get_flags, data; rewrite rd32_app by (rewrite off_flags_eq; lia); exact FF).
+  assert (DL : rd32 OFF_LOAD data = ivt_load c x) by (unfold data; rewrite rd32_app by (rewrite off_load_eq; lia); exact FL).
+  (* mix_parse of every mixin *)
+  assert (PO : parse_ok c x dek tzsize sigsz data (c_mixins c)).
+  { intros m Hi st _ _.
+    assert (Hal : allowed_plain m = true) by (eapply forallb_forall in W'; eauto).
+    destruct (simple_mixin m) eqn:Sm; [now apply mix_parse_simple|].
+    assert (Hm : m = MixinTrustZone \/ m = MixinTrustZoneMandatory) by (destruct m; try discriminate Hal; try discriminate Sm; auto).
+    pose proof (has_tz_mixin_attr c m Hi Hm) as HA2.
+    apply mix_parse_tz_nocert; try assumption; [now rewrite HTZ|].
+    intros d Ed. destruct (HZ d Ed) as [Ld Lz]. destruct tzsize as [|n]; [lia|].
+    unfold data, tz_part. rewrite HA2, Ed. cbn [tz_export].
+    replace (take_last (S n) (app'' ++ tb ++ d)) with d
+      by (rewrite app_assoc, <- Ld; symmetry; apply take_last_app).
+    unfold tz_from_binary. rewrite Ld, Nat.ltb_irrefl. rewrite <- Ld. now rewrite firstn_all. }
+  assert (NE : c_mixins c <> []).
+  { apply has_in in Wa. destruct (c_mixins c) as [|m t]; [contradiction|congruence]. }
+  unfold parse_mbi. unfold supported. rewrite (supported_plain _ W'). cbn [negb].
+  rewrite (rounds_result c x dek tzsize sigsz data NE PO) by (rewrite NC; discriminate). cbn [bind].
+  set (st := rounds_state c x dek).
+  pose proof (provider_none_plain (c_mixins c) SEncrypt W') as PE. pose proof (provider_none_plain (c_mixins c) SPostEncrypt W') as PP.
+  pose proof (provider_none_plain (c_mixins c) SFinalize W') as PF. cbn in PE, PP, PF.
+  assert (REV : bind (finalize_revert c st data) (fun d1 => bind (sign_revert c st d1) (fun d2 =>
+                  bind (post_encrypt_revert c st d2) (fun d3 => bind (encrypt_revert k c st d3) (fun d4 => disassemble c tzsize st d4))))
+                = disassemble c tzsize st data).
+  { unfold finalize_revert, provider. rewrite PF. cbn [bind].
+    unfold sign_revert, provider. destruct (provider_sign_plain _ W') as [PS|PS]; rewrite PS; cbn [bind];
+      unfold post_encrypt_revert, encrypt_revert, provider; rewrite PP, PE; reflexivity. }
+  rewrite REV. clear REV.
+  assert (TG : existsb is_tz_giver (c_mixins c) = has_attr c ATrustZone).
+  { rewrite has_attr_gives. clear - W'. induction (c_mixins c) as [|m l IH]; [reflexivity|].
+    cbn [forallb] in W'. apply andb_true_iff in W' as [H1 H2]. cbn [existsb]. rewrite (IH H2).
+    destruct m; try discriminate H1; reflexivity. }
+  assert (STZ : m_tz st = if has_attr c ATrustZone then m_tz x else TzEnabled) by (unfold st, rounds_state; cbn [m_tz]; now rewrite TG).
+  assert (CUT : cut_tz st data = app'' ++ tb).
+  { unfold cut_tz, data, tz_part. rewrite STZ. destruct (has_attr c ATrustZone).
+    - destruct (tz_export (m_tz x)) eqn:Et; [now rewrite !app_nil_r | rewrite <- Et, app_assoc; apply drop_last_app].
+    - cbn [tz_export]. now rewrite !app_nil_r. }
+  destruct (clean_provider _ Wi) as (dcl & PCL).
+  (* the relocation table *)
+  pose proof (flags_decode_lemma c x R1 R2 R3) as (_ & _ & _ & _ & _ & _ & F6 & _).
+  assert (FLG : flag_set (app'' ++ tb) G_RELOC_TABLE_FLAG = has_attr c AAppTable && has_table x).
+  { unfold flag_set, get_flags. rewrite rd32_app by (rewrite off_flags_eq; lia). rewrite FF. exact F6. }
+  assert (RC : reloc_cut c st (app'' ++ tb) = Ok (set_table st (m_table x), app'')).
+  { unfold reloc_cut, provider. destruct (reloc_provider (c_mixins c)) as [PR|PR]; rewrite PR.
+    - (* no relocation mixin: no table attribute, so no table was given *)
+      assert (NA : has_attr c AAppTable = false).
+      { rewrite has_attr_gives. clear - PR. induction (c_mixins c) as [|m l IH]; [reflexivity|].
+        cbn [provider_in] in PR. destruct m; try discriminate PR; cbn [existsb]; rewrite ?(IH PR); reflexivity. }
+      assert (TN : m_table x = None) by (destruct (m_table x) as [es|] eqn:Et; [destruct (HTb es eq_refl); congruence | reflexivity]).
+      unfold table_part in TB. rewrite NA in TB. injection TB as <-. rewrite app_nil_r, TN.
+      f_equal. f_equal. apply mbi_ext; reflexivity.
+    - unfold disassembly_app_data. rewrite Wi, FLG. cbn [andb]. unfold table_part in TB.
+      destruct (m_table x) as [es|] eqn:Et.
+      + destruct (HTb es eq_refl) as [HA3 OKe]. rewrite HA3 in *. unfold has_table. rewrite Et. cbn [andb negb].
+        assert (NEe : es <> []) by (intros ->; discriminate TB).
+        replace (zlen app') with (zlen app'') in TB by (unfold zlen; now rewrite La, La'').
+        rewrite (table_parse_export app'' es tb NEe OKe TB). cbn [bind fst snd].
+        unfold natz, zlen. rewrite Nat2Z.id, firstn_app, firstn_all, Nat.sub_diag, firstn_O, app_nil_r. reflexivity.
+      + unfold has_table. rewrite Et, andb_false_r. cbn [negb bind fst snd].
+        destruct (has_attr c AAppTable); injection TB as <-; now rewrite app_nil_r. }
+  assert (FIN : finish_app c (set_table st (m_table x)) app'' = parsed c x dek).
+  { unfold finish_app, provider. rewrite PCL, CL, pad4_id by (rewrite clean_ivt_length; assumption). reflexivity. }
+  unfold disassemble. apply Z.eqb_eq in Wd.
+  destruct (provider c SCollect) as [[]|] eqn:PC; try discriminate Wc.
+  - apply opt_id_eq_app in Wd. rewrite Wd.
+    assert (TP : tz_part c x = []) by (unfold tz_part; apply negb_true_iff in Wc; now rewrite Wc).
+    unfold data. rewrite TP, app_nil_r, RC. cbn [bind fst snd]. now rewrite FIN.
+  - apply opt_id_eq_apptz in Wd. rewrite Wd, CUT, RC. cbn [bind fst snd]. now rewrite FIN.
+Qed.
+
+(* ------------------------------------------------------------------ settings a class does not carry are at their defaults *)
+Definition canonical_plain (c : mbi_class) (x : mbi) : Prop :=
+  (has_attr c ALoadAddress = false -> m_load x = 0) /\ (has_attr c AImageVersion = false -> m_imgver x = 0) /\
+  (has_attr c AImageSubtype = false -> m_subtype x = 0) /\ (has_attr c ATrustZone = false -> m_tz x = TzEnabled) /\
+  (has_attr c AHwKey = false -> m_hwkey x = false) /\
+  m_fwver x = 0 /\ m_ks x = None /\ m_hmac x = None /\ m_iv x = [] /\ m_cert x = None /\ m_digest x = 0.
+
+Lemma plain_givers l : forallb allowed_plain l = true ->
+  existsb is_tz_giver l = existsb (gives ATrustZone) l /\ existsb is_manifest_mixin l = false /\
+  existsb is_cert_mixin l = false /\ existsb is_hmac_mixin l = false /\ existsb (gives AKeyStore) l = false /\
+  existsb (gives ACtrIv) l = false.
+Proof.
+  intros H. induction l as [|m l IH]; [repeat split; reflexivity|].
+  cbn [forallb] in H. apply andb_true_iff in H as [H1 H2]. destruct (IH H2) as (A1 & A2 & A3 & A4 & A5 & A6).
+  cbn [existsb]. rewrite A1, A2, A3, A4, A5, A6. destruct m; try discriminate H1; repeat split; reflexivity.
+Qed.
+
+Lemma parsed_plain_canonical c x dek : wf_plain_crc c = true -> canonical_plain c x -> parsed c x dek = set_app x (clean_ivt (m_app x)).
+Proof.
+  intros W (C1 & C2 & C3 & C4 & C5 & C6 & C7 & C8 & C9 & C11 & C12).
+  unfold wf_plain_crc in W. repeat (apply andb_true_iff in W as [W ?]).
+  destruct (plain_givers _ W) as (G1 & G2 & G3 & G4 & G5 & G6).
+  unfold parsed, rounds_state. rewrite !has_attr_gives in *. rewrite G1, G2, G3, G4, G5, G6.
+  apply mbi_ext; cbn; try reflexivity; try (symmetry; assumption);
+    match goal with |- (if ?b then _ else _) = _ => destruct b eqn:Hb; [reflexivity|symmetry; auto] end.
+Qed.
+
+Lemma roundtrip_plain_crc_full :
+  forall (k : crypto) (c : mbi_class) (x : mbi) (tzsize sigsz : nat) (dek : option (list N)) (im : list N),
+    wf_plain_crc c = true ->
+    (56 <= length (m_app x))%nat -> (length (m_app x) mod 4 = 0)%nat ->
+    0 <= m_subtype x < 4 -> 0 <= m_imgver x < 65536 ->
+    (forall es, m_table x = Some es -> has_attr c AAppTable = true /\ entries_ok es) ->
+    (forall d, m_tz x = TzCustom d -> length d = tzsize /\ (0 < tzsize)%nat) ->
+    export_mbi k c x = Ok im ->
+    parse_mbi k c tzsize sigsz dek im = Ok (parsed c x dek) /\
+    (canonical_plain c x ->
+       parsed c x dek = set_app x (clean_ivt (m_app x)) /\ export_mbi k c (parsed c x dek) = Ok im).
+Proof.
+  intros k c x tzsize sigsz dek im W L L4 R2 R3 HT HZ E.
+  split; [exact (roundtrip_plain_crc k c x tzsize sigsz dek im W L L4 R2 R3 HT HZ E)|].
+  intros C. rewrite (parsed_plain_canonical c x dek W C). split; [reflexivity|].
+  rewrite export_clean_app; [exact E | exact L |].
+  unfold wf_plain_crc in W. repeat (apply andb_true_iff in W as [W ?]). assumption.
+Qed.
+
+Example wf_plain_crc_instance :
+  wf_plain_crc {| c_type := 5; c_mixins := [MixinApp; MixinIvt; MixinTrustZone; ExportMixinAppTrustZone; ExportMixinCrcSign] |} = true.
+Proof. vm_compute. reflexivity. Qed.
+
+(* ------------------------------------------------------------------ total length = bytes emitted (plain / CRC classes) *)
+Lemma table_entries_mono es : forall s s' e, table_entries es s = Ok e -> 0 <= s' <= s -> exists e', table_entries es s' = Ok e'.
+Proof.
+  induction es as [|en t IH]; intros s s' e H R; [eexists; reflexivity|]. cbn [table_entries] in *.
+  destruct (u32 s) as [ws|] eqn:E1; cbn [bind] in H; [|discriminate].
+  destruct (u32 (e_dst en)) as [wd|] eqn:E2; cbn [bind] in H |- *; [|discriminate].
+  destruct (u32 (zlen (e_img en))) as [wl|] eqn:E3; cbn [bind] in H |- *; [|discriminate].
+  destruct (u32 (e_flags en)) as [wf|] eqn:E4; cbn [bind] in H |- *; [|discriminate].
+  destruct (table_entries t (s + _)) as [r|] eqn:E5; cbn [bind] in H; [|discriminate].
+  apply u32_value in E1 as [_ B1].
+  assert (U : exists w, u32 s' = Ok w).
+  { unfold u32. replace ((0 <=? s') && (s' <? 4294967296)) with true; [eauto|].
+    symmetry. apply andb_true_iff. split; [apply Z.leb_le|apply Z.ltb_lt]; lia. }
+  destruct U as (w & ->). cbn [bind]. rewrite E2, E3, E4. cbn [bind].
+  destruct (IH _ (s' + zlen (pad4 (e_img en))) _ E5) as (r' & ->); [lia|]. cbn [bind]. eauto.
+Qed.
+
+Lemma table_export_len es s T : table_export es s = Ok T -> 0 <= s -> table_len es = zlen T.
+Proof.
+  intros H Hs. assert (NE : es <> []) by (intros ->; discriminate H).
+  destruct (table_export_inv es s T H NE) as (ent & wn & wp & wm & E1 & E2 & E3 & E4 & ->).
+  destruct (table_entries_mono es s 0 ent E1) as (ent0 & E0); [lia|].
+  pose proof (zlen_nonneg (table_images es)) as P.
+  assert (U : exists w, u32 (0 + zlen (table_images es)) = Ok w).
+  { apply u32_value in E3 as [_ B]. unfold u32.
+    replace ((0 <=? 0 + zlen (table_images es)) && (0 + zlen (table_images es) <? 4294967296)) with true; [eauto|].
+    symmetry. apply andb_true_iff. split; [apply Z.leb_le|apply Z.ltb_lt]; lia. }
+  destruct U as (wp0 & E30).
+  unfold table_len, table_export. destruct es as [|e0 t0]; [contradiction|].
+  rewrite E0. cbn [bind]. rewrite E2. cbn [bind]. rewrite E30. cbn [bind]. rewrite E4. cbn [bind].
+  apply table_entries_length in E1, E0. apply u32_length in E3, E30.
+  unfold zlen. rewrite !app_length, E1, E0, E3, E30. reflexivity.
+Qed.
+
+Lemma sum_len_plain x l :
+  forallb allowed_plain l = true -> nodupb l = true ->
+  sumz (map (mix_len x) l) =
+  (if hasl l MixinApp then zlen (m_app x) else 0) + (if hasl l MixinTrustZone then zlen (tz_export (m_tz x)) else 0) +
+  (if hasl l MixinTrustZoneMandatory then zlen (tz_export (m_tz x)) else 0) +
+  (if hasl l MixinRelocTable then (match m_table x with Some es => table_len es | None => 0 end) else 0).
+Proof.
+  intros Ha Hn. induction l as [|m l IH]; [reflexivity|].
+  cbn [forallb] in Ha. apply andb_true_iff in Ha as [Ha1 Ha2].
+  cbn [nodupb] in Hn. apply andb_true_iff in Hn as [Hn1 Hn2]. apply negb_true_iff in Hn1.
+  specialize (IH Ha2 Hn2). cbn [map sumz fold_right]. fold (sumz (map (mix_len x) l)). rewrite IH.
+  unfold hasl in *. cbn [existsb].
+  destruct m; try discriminate Ha1; cbn [mix_len mixin_eqb mixin_id Z.eqb orb Pos.eqb]; rewrite ?Hn1; cbn [orb];
+    repeat match goal with |- context [if ?b then _ else _] => destruct b end; lia.
+Qed.
+
+Lemma has_attr_tz_plain l : forallb allowed_plain l = true ->
+  existsb (gives ATrustZone) l = hasl l MixinTrustZone || hasl l MixinTrustZoneMandatory.
+Proof.
+  intros H. induction l as [|m l IH]; [reflexivity|]. cbn [forallb] in H. apply andb_true_iff in H as [H1 H2].
+  unfold hasl in *. cbn [existsb]. rewrite (IH H2). destruct m; try discriminate H1; cbn;
+    repeat match goal with |- context [existsb ?f ?l] => destruct (existsb f l) end; reflexivity.
+Qed.
+Lemma has_attr_table_plain l : existsb (gives AAppTable) l = hasl l MixinRelocTable.
+Proof. induction l as [|m l IH]; [reflexivity|]. unfold hasl in *. cbn [existsb]. rewrite IH. destruct m; reflexivity. Qed.
+
+Theorem len_is_sum_plain_crc k c x im :
+  wf_plain_crc c = true -> nodupb (c_mixins c) = true ->
+  (has c MixinTrustZone && has c MixinTrustZoneMandatory) = false ->
+  (56 <= length (m_app x))%nat ->
+  export_mbi k c x = Ok im ->
+  zlen im = total_len c x /\
+  rd32 OFF_LEN im = (match provider c SUpdateIvt with Some MixinIvtZeroTotalLength => 0 | _ => zlen im end) /\
+  rd32 OFF_FLAGS im = create_flags c x /\ rd32 OFF_LOAD im = (if has_attr c ALoadAddress then m_load x else 0).
+Proof.
+  intros W ND NB L E.
+  destruct (export_plain_shape k c x im W L E) as (app' & app'' & tb & U & HA & TB & ->).
+  pose proof W as W'. unfold wf_plain_crc in W'. repeat (apply andb_true_iff in W' as [W' ?]).
+  rename H into Wd, H0 into Wc, H1 into Wt2, H2 into Wt1, H3 into Wi, H4 into Wa.
+  assert (La : length app' = length (m_app x)) by (eapply update_ivt_length; eassumption).
+  destruct (ivt_words c x (m_app x) (total_len c x) 0 app' L U) as (IW1 & IW2 & IW3 & IW4).
+  assert (La'' : length app'' = length (m_app x)).
+  { destruct HA as [->|(w & Hw & ->)]; [assumption|]. rewrite off_crc_eq, wr_length; lia. }
+  assert (TBL : zlen tb = if hasl (c_mixins c) MixinRelocTable then (match m_table x with Some es => table_len es | None => 0 end) else 0).
+  { unfold table_part in TB. rewrite has_attr_gives, has_attr_table_plain in TB.
+    destruct (hasl (c_mixins c) MixinRelocTable); [|now inversion TB].
+    destruct (m_table x) as [es|]; [|now inversion TB]. symmetry. eapply table_export_len; [eassumption|apply zlen_nonneg]. }
+  assert (TL : total_len c x = zlen (app'' ++ tb ++ tz_part c x)).
+  { unfold total_len. rewrite (sum_len_plain x (c_mixins c) W' ND).
+    unfold has in Wa, NB. unfold hasl in *. rewrite Wa. rewrite !zlen_app, TBL. unfold zlen at 3. rewrite La''. fold (zlen (m_app x)).
+    unfold tz_part. rewrite has_attr_gives, (has_attr_tz_plain _ W'). unfold hasl.
+    destruct (existsb (mixin_eqb MixinTrustZone) (c_mixins c)), (existsb (mixin_eqb MixinTrustZoneMandatory) (c_mixins c));
+      try discriminate NB; cbn [orb]; unfold zlen; simpl length; lia. }
+  assert (F'' : rd32 OFF_LEN app'' = ivt_total c (total_len c x) /\ rd32 OFF_FLAGS app'' = create_flags c x /\ rd32 OFF_LOAD app'' = ivt_load c x).
+  { destruct HA as [->|(w & Hw & ->)]; [auto|]. rewrite off_crc_eq, off_flags_eq, off_load_eq, off_len_eq in *.
+    rewrite !rd32_wr_other by lia. auto. }
+  destruct F'' as (F1 & F2 & F3).
+  split; [now rewrite TL|]. rewrite !rd32_app by (rewrite ?off_len_eq, ?off_flags_eq, ?off_load_eq; lia).
+  rewrite F1, F2, F3. unfold ivt_total, ivt_load. rewrite TL. auto.
+Qed.
+
+(* the hypotheses are satisfiable: a database class with relocation-table mixin, a table of two entries, a custom TrustZone *)
+Example roundtrip_plain_crc_nonvacuous :
+  let c := {| c_type := 2; c_mixins := [MixinApp; MixinRelocTable; MixinLoadAddress; MixinIvt; MixinTrustZone; MixinHwKey;
+                                        ExportMixinAppTrustZone; ExportMixinCrcSign] |} in
+  let x := {| m_app := map N.of_nat (seq 1 64); m_load := 4096; m_imgver := 0; m_subtype := 0; m_fwver := 0;
+              m_tz := TzCustom (map N.of_nat (seq 7 8)); m_hwkey := true; m_ks := None; m_hmac := None; m_iv := [];
+              m_table := Some [{| e_img := [1; 2; 3]%N; e_dst := 536870912; e_flags := 1 |};
+                               {| e_img := [9; 8; 7; 6; 5]%N; e_dst := 268435456; e_flags := 1 |}];
+              m_cert := None; m_digest := 0 |} in
+  let k := {| k_sign := fun _ => []; k_hmac := fun _ _ => []; k_ctr := fun _ _ _ d => d; k_hash := fun _ _ => [] |} in
+  wf_plain_crc c = true /\ canonical_plain c x /\
+  exists im, export_mbi k c x = Ok im /\ length im = 132%nat /\ parse_mbi k c 8 0 None im = Ok (parsed c x None).
+Proof.
+  cbv zeta. split; [vm_compute; reflexivity|]. split; [repeat split; intros; try reflexivity; discriminate|].
+  eexists. split; [vm_compute; reflexivity|]. split; vm_compute; reflexivity.
 Qed.
